@@ -62,6 +62,10 @@ CLAIMED["C17"] = ("partial: bookkeeping invariant and position theorem for the s
   "next_inv, init_inv, position_is_truePos, emit_position, err_position, truePos_prefix, node_error_line, data_error_line. Tie: whole-pipeline model vs real assembler on (file, line, column, quoted line) of every report; oracle: an erroneous statement inserted at line positions of generated programs (main and included file, after comment / blank / block / macro / multi-line-comment prefixes) must be reported at its own file, line, column and text.",
   "That every scanner state function preserves the invariant is not yet a theorem (tied by the S7 stream of C15, which compares every token position). Message texts are not compared, only locations.")
 
+CLAIMED["C16"] = ("partial: the parser/codegen/literal pieces proved; composition over source texts by metamorphic twins", "6/C16", "Lean 4 proof of the layout-independence pieces (comment tokens skipped by the statement loop, case-insensitive mnemonic / index register / hex digits, .include generated inline, blanks ignored by ignore_run) + whole-pipeline correspondence + metamorphic relayout twins on the real assembler",
+  "comment_skipped, mnemonic_case, asciiLower_idem, index_case, hex_digit_case, include_is_inline, spaces_ignored. Tie: relayout twins (random compositions of every listed presentation change at every applicable position, plus moving a run of statements into an included file) of generated programs and of the repository samples: bytes, offsets and all label values equal; relayouted texts also run through the model.",
+  "The full printer/scanner round-trip theorem (C16_scan_render of DESIGN section 6) is not proved. A blank between an inner index register and its closing bracket `(e,s )` is not among the listed changes (the code rejects it); see DESIGN section 8.")
+
 NOT_YET = {}
 
 def main():
